@@ -153,7 +153,10 @@ func (csm *ClusterShardMapper) mapMstShards(s *influxql.Measurement, csming *Clu
 	// Retrieve the list of shards for this database. This list of
 	// shards is always the same regardless of which measurement we are
 	// using.
-	for _, source := range sources {
+	for srcIdx, source := range sources {
+		// sources and measurements are built side by side: each source is mapped with its own
+		// measurement (name, schema, shard key), not with the first one a regular expression matched
+		mst := measurements[srcIdx]
 		var shardInfosByPtID map[uint32][]executor.ShardInfo
 		if shardInfos := csming.ShardMap[source]; shardInfos != nil {
 			shardInfosByPtID = shardInfos
@@ -178,14 +181,14 @@ func (csm *ClusterShardMapper) mapMstShards(s *influxql.Measurement, csming *Clu
 				continue
 			}
 			if shardKeyInfo == nil {
-				shardKeyInfo = measurements[0].GetShardKey(groups[i].ID)
+				shardKeyInfo = mst.GetShardKey(groups[i].ID)
 			}
 			aliveShardIdxes := csm.MetaClient.GetAliveShards(s.Database, &groups[i], true)
 			var shs []meta2.ShardInfo
 			if opt.HintType == hybridqp.FullSeriesQuery || opt.HintType == hybridqp.SpecificSeriesQuery {
-				shs, csming.seriesKey = groups[i].TargetShardsHintQuery(measurements[0], shardKeyInfo, condition, opt, aliveShardIdxes)
+				shs, csming.seriesKey = groups[i].TargetShardsHintQuery(mst, shardKeyInfo, condition, opt, aliveShardIdxes)
 			} else {
-				shs = groups[i].TargetShards(measurements[0], shardKeyInfo, condition, aliveShardIdxes)
+				shs = groups[i].TargetShards(mst, shardKeyInfo, condition, aliveShardIdxes)
 			}
 
 			csm.updateShardInfosByPtID(s, g, shs, &shardInfosByPtID)
